@@ -499,12 +499,14 @@ type Contracts struct {
 	GVars  []GhostField
 	Files  []string
 	Assume []string // textual list of assumed contracts for evidence
+	Scoped map[string]*FuncContract // extern contracts by declaring package: specPkg|pkg::key
+	Ambig  map[string]bool          // extern keys declared (differently) by more than one package
 }
 
 var kwRe = regexp.MustCompile(`^(func|iface|extern|requires|ensures|modifies|loop|pred|pure|ghostset|ghost|trusted|inline|props|nobounds|noframe|free|mode|opaque|invariant)\b`)
 
 func loadContracts(root string, pkgDirs map[string]string) (*Contracts, error) {
-	cs := &Contracts{Funcs: map[string]*FuncContract{}, Pures: map[string]*PureFunc{}}
+	cs := &Contracts{Funcs: map[string]*FuncContract{}, Pures: map[string]*PureFunc{}, Scoped: map[string]*FuncContract{}, Ambig: map[string]bool{}}
 	for pkgPath, dir := range pkgDirs {
 		fn := filepath.Join(dir, "zz_contracts_verif.go")
 		data, err := os.ReadFile(fn)
@@ -584,7 +586,15 @@ func (cs *Contracts) parseFile(pkgPath, fn, data string) error {
 				}
 			}
 			cur.TrustNote = "external package " + fs[0]
-			cs.Funcs[fs[0]+"::"+key] = cur
+			// an extern contract applies to calls made from the package that declares it; it is
+			// also the default for other packages unless two packages declare the same callee
+			ek := fs[0] + "::" + key
+			cs.Scoped[pkgPath+"|"+ek] = cur
+			if prev, ok := cs.Funcs[ek]; ok && prev.SpecPkg != pkgPath {
+				cs.Ambig[ek] = true
+			} else {
+				cs.Funcs[ek] = cur
+			}
 		case "func", "iface":
 			sig, props := splitProps(rest)
 			key := canonFuncKey(sig)
